@@ -7,6 +7,40 @@ VALUES = [b"x", b"", b"a b", b"*/*", b"gzip, deflate", b"curl/7.19", b"Apache", 
           b"text/html;q=0.9,*/*;q=0.8", b"en-us,en;q=0.5", b"\xe9t\xe9", b"[v]"]
 
 
+# well-known headers with values at and beyond the edges of their usual grammars: code that starts to *interpret* a standard header
+# (dates, lengths, ports, q-values, charsets) meets absurd numbers, non-ASCII digits, NULs and very long tokens here
+_BIG = [b"9" * 20, b"9" * 400, b"1" + b"0" * 30, b"-1", b"-" + b"9" * 25, b"0x7fffffffffffffffffff", b"1e999", b"\xd9\xa1\xd9\xa2", b"\xef\xbc\x91\xef\xbc\x92", b"+5", b" 7 ", b"", b"\x00", b"NaN"]
+HOSTILE = {
+    b"Date": [b"Tue, 01 Mar %s 20:45:16 GMT", b"Tue, %s Mar 2011 20:45:16 GMT", b"Tue, 01 Mar 2011 %s:45:16 GMT", b"Tue, 01 Mar 2011 20:45:16 +%s",
+              b"Tue, 01 Mar 2011 20:45:16 -%s", b"%s", b"Tue, 01 Foo 2011 20:45:16 GMT", b"01 Mar 2011", b"Tue, 32 Mar 2011 25:61:61 GMT", b"Mon, 00 Jan 0000 00:00:00 GMT",
+              b"Tue, 01 Mar 2011 20:45:16 GMT" * 30],
+    b"Last-Modified": [b"Tue, 01 Mar %s 20:45:16 GMT", b"%s"],
+    b"Expires": [b"%s", b"0", b"-1", b"Tue, 01 Mar %s 20:45:16 GMT"],
+    b"Content-Length": [b"%s", b"12, %s", b"%s%s"],
+    b"Keep-Alive": [b"timeout=%s", b"timeout=%s, max=%s", b"%s"],
+    b"Host": [b"example.com:%s", b"[::1]:%s", b"%s", b"a" * 3000, b"\xe9.example", b"exa\x00mple.com"],
+    b"Accept": [b"text/html;q=%s", b"*/*;q=0.%s", b"%s/%s"],
+    b"Accept-Language": [b"en;q=%s", b"%s"],
+    b"Content-Type": [b"text/html; charset=%s", b"text/html; charset=\"%s", b"%s"],
+    b"User-Agent": [b"Mozilla/%s", b"curl/%s.%s", b"(" * 500, b"%s"],
+    b"Server": [b"Apache/%s", b"%s"],
+    b"Via": [b"%s proxy", b"1.1 a, " * 400],
+    b"Age": [b"%s"], b"Max-Forwards": [b"%s"], b"Retry-After": [b"%s"], b"Upgrade-Insecure-Requests": [b"%s"],
+    b"Cookie": [b"a=%s; " * 50, b"=%s"],
+    b"Range": [b"bytes=%s-%s", b"bytes=-%s"],
+    b"Transfer-Encoding": [b"chunked, %s", b"%s"],
+}
+
+
+def hostile_header(r):
+    name = r.choice(sorted(HOSTILE))
+    tmpl = r.choice(HOSTILE[name])
+    n = tmpl.count(b"%s")
+    val = tmpl % tuple(r.choice(_BIG) for _ in range(n)) if n else tmpl
+    val = val.replace(b"\r", b"").replace(b"\n", b"")
+    return case_variant(r, name), val
+
+
 def case_variant(r, n):
     c = r.random()
     return n if c < 0.6 else n.lower() if c < 0.8 else n.upper()
